@@ -40,7 +40,10 @@ Fixpoint scan (fuel : nat) (s : text) : outcome :=
     else scan f r                                                             (* "\n" or ".": one character *)
   end end.
 
-(* outside comments (for texts without // comments and string literals): copy up to the next opener *)
+(* outside comments (for texts without string literals and continuation lines): a line comment "//"[^\n]* is dropped up to the line
+   break, a block comment is scanned and stands for a separator, everything else is copied *)
+Definition line_mark : text := ["/"; "/"].
+Fixpoint drop_line (s : text) : text := match s with [] => [] | c :: r => if Ascii.eqb c "010" then s else drop_line r end.
 Fixpoint strip (fuel : nat) (s : text) : option text :=
   match fuel with O => None | S f =>
   match s with
@@ -48,5 +51,6 @@ Fixpoint strip (fuel : nat) (s : text) : option text :=
   | c :: r =>
     if starts open_mark s then
       match scan (List.length s) (skipn 2 s) with Closed rest => option_map (fun t => " " :: t) (strip f rest) | Unclosed => None end
+    else if starts line_mark s then strip f (drop_line r)
     else option_map (cons c) (strip f r)
   end end.
